@@ -1,7 +1,8 @@
 """C02 - instances mirror their definition: reference sets and outer pins track all edits.
 
 Monitor: invariant hook I6-I8 (wf.check_c02) after every outermost mutator exit, plus transition monitors:
-I8  every outer pin stored before the call and not stored after it is off its wire (and no wire lists it);
+I8  every outer pin stored before the call and not stored after it is off its wire (and no wire lists it) and no longer
+    names the instance that dropped it;
 I9  an accepted re-point to a shape-compatible definition keeps every connection on the corresponding pin."""
 from .. import common
 
@@ -72,6 +73,12 @@ class C02Monitor(C01Monitor):
                     return True
                 if w is not None and any(q is op_ for q in w.pins):
                     ctx.violation("I8-dropped-pin-still-listed@%s" % op.label, "outer pin dropped by %s still listed by its wire; log=%s" % (op.desc, eng.log[-8:]))
+                    return True
+                # ... and, like every removed element, it no longer names a parent: an outer pin that its instance does not
+                # hold any more must not go on naming that instance (a caller's handle would still look live)
+                inst_ = op_.instance
+                if inst_ is not None and op_.inner_pin is not None and not any(q is op_ for q in inst_.pins):
+                    ctx.violation("I8-dropped-pin-names-instance@%s" % op.label, "outer pin dropped by %s still names its instance and inner pin; log=%s" % (op.desc, eng.log[-8:]))
                     return True
         if self.repoint is not None and outcome == "ok":
             i, before = self.repoint
